@@ -159,7 +159,7 @@ Proof.
     + match type of H with context [if negb ?b then _ else _] => destruct (negb b) end;
         [discriminate|].
       destruct (match d with VDoc fs => assoc "_id" fs | _ => None end); [|discriminate].
-      set (c1 := with_docs c (store_set k d' (docs c))) in H.
+      set (c1 := with_docs_w c (store_set k d' (docs c))) in H.
       assert (Hneq : value_eqb d d' = false).
       { apply value_eqb_neq. intro E. subst d'. congruence. }
       assert (Hd1 : docs c1 = done ++ (k, d') :: todo).
